@@ -84,3 +84,25 @@ Lemma ex_nests2 :
   nests2 ex_A_bgsm_common ex_sgc_bgsm ex_sgs_bgsm ex_bgsm_sel ex_split_mig_sel = true /\
   nests2 ex_A_bgsm_common ex_sgc_bgsm ex_sgs_bgsm ex_bgsm_sel_wrong ex_split_mig_sel = false.
 Proof. split; vm_compute; reflexivity. Qed.
+
+(** rule [fuse]: admix_origin_uni_mig_adj (nu1,nu2,nu3,m32,m31,T1,T2,f) at T1 = 0 against sim_split_uni_mig_adjacent_var
+    (nu1,nu2,nu3,m32,m31,T1) at T1 = T, over the common parameters (nu1,nu2,nu3,m32,m31,T,f): with a zero-length first epoch the
+    admixture acts on the diagonal density phi_1D_to_2D left, where it is the split of population 2 whatever f *)
+(* admix_origin_uni_mig_adj('nu1', 'nu2', 'nu3', 'm32', 'm31', 'T1', 'T2', 'f') *)
+Definition ex_admix_uni : prog :=
+  (Step IGrid (Step (IPhi1D (Const (1 # 1)) (Const (1 # 1)) (Const (0 # 1)) (Const (1 # 2)) (Const (1 # 1))) (Step (ISplit 1 0) (Step (IIntegrate (Var 5) [(Var 0); (Var 1)] [[(Const (0 # 1)); (Const (0 # 1))]; [(Const (0 # 1)); (Const (0 # 1))]] [(Const (0 # 1)); (Const (0 # 1))] [(Const (1 # 2)); (Const (1 # 2))] (Const (1 # 1)) (Const (1 # 1)) [false; false] [false; false]) (Step (IAdmixNew 2 [(Var 7)]) (Step (IIntegrate (Var 6) [(Var 0); (Var 1); (Var 2)] [[(Const (0 # 1)); (Const (0 # 1)); (Const (0 # 1))]; [(Const (0 # 1)); (Const (0 # 1)); (Const (0 # 1))]; [(Var 4); (Var 3); (Const (0 # 1))]] [(Const (0 # 1)); (Const (0 # 1)); (Const (0 # 1))] [(Const (1 # 2)); (Const (1 # 2)); (Const (1 # 2))] (Const (1 # 1)) (Const (1 # 1)) [false; false; false] [false; false; false]) (Step (IFromPhi 3) Done))))))).
+(* the same function unpacking (nu1, nu2, nu3, m31, m32, T1, T2, f): the two one-way rates into population 3 exchanged in all their
+   occurrences, i.e. relative to the declared names *)
+Definition ex_admix_uni_exchanged : prog :=
+  (Step IGrid (Step (IPhi1D (Const (1 # 1)) (Const (1 # 1)) (Const (0 # 1)) (Const (1 # 2)) (Const (1 # 1))) (Step (ISplit 1 0) (Step (IIntegrate (Var 5) [(Var 0); (Var 1)] [[(Const (0 # 1)); (Const (0 # 1))]; [(Const (0 # 1)); (Const (0 # 1))]] [(Const (0 # 1)); (Const (0 # 1))] [(Const (1 # 2)); (Const (1 # 2))] (Const (1 # 1)) (Const (1 # 1)) [false; false] [false; false]) (Step (IAdmixNew 2 [(Var 7)]) (Step (IIntegrate (Var 6) [(Var 0); (Var 1); (Var 2)] [[(Const (0 # 1)); (Const (0 # 1)); (Const (0 # 1))]; [(Const (0 # 1)); (Const (0 # 1)); (Const (0 # 1))]; [(Var 3); (Var 4); (Const (0 # 1))]] [(Const (0 # 1)); (Const (0 # 1)); (Const (0 # 1))] [(Const (1 # 2)); (Const (1 # 2)); (Const (1 # 2))] (Const (1 # 1)) (Const (1 # 1)) [false; false; false] [false; false; false]) (Step (IFromPhi 3) Done))))))).
+(* sim_split_uni_mig_adjacent_var('nu1', 'nu2', 'nu3', 'm32', 'm31', 'T1') *)
+Definition ex_sim_split_uni : prog :=
+  (Step IGrid (Step (IPhi1D (Const (1 # 1)) (Const (1 # 1)) (Const (0 # 1)) (Const (1 # 2)) (Const (1 # 1))) (Step (ISplit 1 0) (Step (ISplit 2 1) (Step (IIntegrate (Var 5) [(Var 0); (Var 1); (Var 2)] [[(Const (0 # 1)); (Const (0 # 1)); (Const (0 # 1))]; [(Const (0 # 1)); (Const (0 # 1)); (Const (0 # 1))]; [(Var 4); (Var 3); (Const (0 # 1))]] [(Const (0 # 1)); (Const (0 # 1)); (Const (0 # 1))] [(Const (1 # 2)); (Const (1 # 2)); (Const (1 # 2))] (Const (1 # 1)) (Const (1 # 1)) [false; false; false] [false; false; false]) (Step (IFromPhi 3) Done)))))).
+Definition ex_A_admix_common : assum := {| a_pos := [0%nat; 1%nat; 2%nat]; a_nonneg := [3%nat; 4%nat; 5%nat]; a_frac := [6%nat] |}.
+Definition ex_sgc_admix : list expr := [(Var 0); (Var 1); (Var 2); (Var 3); (Var 4); (Const (0 # 1)); (Var 5); (Var 6)].
+Definition ex_sgs_admix : list expr := [(Var 0); (Var 1); (Var 2); (Var 3); (Var 4); (Var 5)].
+(* the zero-migration nesting point (m32 = m31 = 0 against admix_origin_no_mig) cannot tell the two programs apart; T1 = 0 does *)
+Lemma ex_fuse :
+  nests2 ex_A_admix_common ex_sgc_admix ex_sgs_admix ex_admix_uni ex_sim_split_uni = true /\
+  nests2 ex_A_admix_common ex_sgc_admix ex_sgs_admix ex_admix_uni_exchanged ex_sim_split_uni = false.
+Proof. split; vm_compute; reflexivity. Qed.
